@@ -15,7 +15,7 @@ QUICK_SHARDS = 4
 RULE = (
     "Hypothesis (value tree, casing in {CAMEL, SNAKE}, path in {dict, json text, to_json/from_json}, form in "
     "{classmethod, instance on a fresh message}, generated-code variant in {default, typing.310}, UTC offset of the aware "
-    "datetimes put into Timestamp fields) over the kitchen-sink corpus. Oracle: json.dumps(to_dict(m)) "
+    "datetimes put into Timestamp fields, construction route in {kwargs, setattr, lazy = only in-place mutation of lazily created members, kwargs_multi = constructor also given earlier members of the selected oneof groups}) over the kitchen-sink corpus. Oracle: json.dumps(to_dict(m)) "
     "succeeds; the reloaded message has the same public-observer snapshot, is == m and encodes to the same bytes. "
     "Non-trivial = contains >=1 of: 64-bit int, bytes, non-finite float, enum, Timestamp/Duration, wrapper, map with "
     "non-string key, map/repeated of messages, default-valued oneof/optional member, present-but-empty message."
@@ -63,12 +63,20 @@ def targets(ctx):
         return adapters[tz]
 
     @collecting
-    def clauses(out, name, tree, casing, path, form, variant="default", tz=0):
+    def clauses(out, name, tree, casing, path, form, variant="default", tz=0, route="kwargs"):
         cls = (c310 if variant == "typing.310" else c).bp(name)
         mi = schema.msg(f"ks.{name}")
-        m = guard("build", adapter_for(tz).build, cls, mi, tree)
+        m = guard("build", adapter_for(tz).build, cls, mi, tree, route)
+        # route "lazy": filled only by mutating what attribute access creates (no attribute of m itself is assigned);
+        # presence of the intermediate messages = flag or content there (C06's business), on both sides
+        mode = "sow_or_content" if route == "lazy" else "sow"
+        if route == "lazy":
+            # observe the JSON side FIRST: nothing (bytes, ==, snapshot) may have touched the message before
+            first = guard("to_dict_untouched", m.to_dict, CAS[casing])
         b = guard("bytes", bytes, m)
-        a = norm(schema, mi, guard("snapshot_m", snap_bp, schema, mi, m))
+        a = norm(schema, mi, guard("snapshot_m", snap_bp, schema, mi, m, mode))
+        if route == "lazy" and first != guard("to_dict", m.to_dict, CAS[casing]):
+            out.append(("to_dict_differs_after_observation", f"first={first!r:.300} later={m.to_dict(CAS[casing])!r:.300}"))
         if path == "to_json":
             text = guard("to_json", m.to_json, casing=CAS[casing])
             m2 = guard("from_json", cls().from_json, text)
@@ -84,7 +92,7 @@ def targets(ctx):
                 m2 = guard("from_dict_cls", cls.from_dict, d2)
             else:
                 m2 = guard("from_dict_inst", cls().from_dict, d2)
-        z = norm(schema, mi, guard("snapshot_m2", snap_bp, schema, mi, m2))
+        z = norm(schema, mi, guard("snapshot_m2", snap_bp, schema, mi, m2, mode))
         if a != z:
             out.append(("json_roundtrip_snapshot", f"before={a!r:.400} after={z!r:.400}"))
         eq = guard("eq", lambda: m2 == m)
@@ -95,10 +103,10 @@ def targets(ctx):
         if b2 != b and "NaN" not in repr(a):
             out.append(("json_roundtrip_bytes", f"before={b.hex()[:200]} after={b2.hex()[:200]}"))
 
-    def fails_clause(casing, path, form, clause, variant="default", tz=0):
+    def fails_clause(casing, path, form, clause, variant="default", tz=0, route="kwargs"):
         def f(mi, tree):
             name = mi.full_name.split(".")[-1]
-            return any(cl == clause for cl, _ in clauses(name, tree, casing, path, form, variant, tz))
+            return any(cl == clause for cl, _ in clauses(name, tree, casing, path, form, variant, tz, route))
 
         return f
 
@@ -106,15 +114,20 @@ def targets(ctx):
         name, tree = case["msg"], case["tree"]
         casing, path, form = case.get("casing", "camel"), case.get("path", "json"), case.get("form", "class")
         mi = schema.msg(f"ks.{name}")
-        variant, tz = case.get("variant", "default"), case.get("tz", 0)
-        found = clauses(name, tree, casing, path, form, variant, tz)
+        variant, tz, route = case.get("variant", "default"), case.get("tz", 0), case.get("route", "kwargs")
+        from ..values import OutOfDomain
+
+        try:
+            found = clauses(name, tree, casing, path, form, variant, tz, route)
+        except OutOfDomain as e:
+            return Eval(discard=str(e))
         fails = []
         for clause, detail in found:
             fails += cm.failures_for(schema, mi, tree, clause,
                                      f"msg={name} casing={casing} path={path} form={form} tree={tree!r} :: {detail}",
-                                     fails_clause(casing, path, form, clause, variant, tz), fmt="{clause}|{where}|" + path + ("|typing.310" if variant != "default" else ""))
+                                     fails_clause(casing, path, form, clause, variant, tz, route), fmt="{clause}|{where}|" + path + ("|typing.310" if variant != "default" else ""))
         return Eval(fails, nontrivial=json_nontrivial(schema, mi, tree),
-                    labels=cm.labels_for(schema, mi, tree) + [f"casing:{casing}", f"path:{path}", f"form:{form}", f"variant:{variant}", f"tz:{tz}"])
+                    labels=cm.labels_for(schema, mi, tree) + [f"casing:{casing}", f"path:{path}", f"form:{form}", f"variant:{variant}", f"tz:{tz}", f"route:{route}"])
 
     base = cm.msg_tree_strategy(c)
 
@@ -126,6 +139,7 @@ def targets(ctx):
         case["form"] = draw(st.sampled_from(["class", "instance"]))
         case["variant"] = draw(st.sampled_from(["default", "default", "typing.310"]))
         case["tz"] = draw(st.sampled_from([0, 0, 330, -480, 60, 840]))
+        case["route"] = draw(st.sampled_from(["kwargs", "kwargs", "kwargs", "setattr", "lazy", "lazy", "kwargs_multi"]))
         return case
 
     from . import _seq
